@@ -8,23 +8,6 @@ use serde_json::json;
 use std::cell::RefCell;
 use std::collections::{BTreeMap, BTreeSet};
 
-fn str_array(e: &syn::Expr) -> Option<Vec<String>> {
-    if let syn::Expr::Array(a) = e {
-        let mut v = vec![];
-        for x in a.elems.iter() {
-            if let syn::Expr::Lit(l) = x {
-                if let syn::Lit::Str(s) = &l.lit {
-                    v.push(s.value());
-                    continue;
-                }
-            }
-            return None;
-        }
-        return Some(v);
-    }
-    None
-}
-
 pub fn run(m: &Model, ctx: &mut Ctx, facts: &Facts) {
     ctx.explanation = "C16.kw: the keyword table (found by content: the string array containing both \"fn\" and \"struct\") must contain every strict and reserved keyword of every edition known to the nightly compiler \
 (enumerated from rustc_span's pre-interned symbols with Symbol::is_reserved by the MIR driver), and each of the four name manglers must test the *converted* spelling against that table and prefix a hit with r_/R_. \
